@@ -667,6 +667,49 @@ func rulesW3(cx *Ctx, prop string) []Obligation {
 
 // ---------------------------------------------------------------- C07
 
+// evalBoolExpr evaluates a 0/1-valued expression built from IsZero(x) (taking the value z), constants, Sub(1, e) and
+// Select; −1 when it cannot be evaluated
+func evalBoolExpr(v *Val, isZx func(*Expr) bool, z int64, depth int) int64 {
+	if v == nil || depth > 8 {
+		return -1
+	}
+	if k := constOf(v); k != nil && k.IsInt64() {
+		return k.Int64()
+	}
+	if v.Ex == nil {
+		return -1
+	}
+	switch v.Ex.Op {
+	case "IsZero":
+		if isZx(v.Ex) {
+			return z
+		}
+	case "Sub":
+		extraOK := true
+		for _, e := range v.Ex.Args[min(2, len(v.Ex.Args)):] {
+			if e != nil && (e.Ex != nil || len(e.Dir) > 0 || len(e.From) > 0) {
+				extraOK = false // a third real operand
+			}
+		}
+		if len(v.Ex.Args) >= 2 && extraOK {
+			a, b := evalBoolExpr(v.Ex.Args[0], isZx, z, depth+1), evalBoolExpr(v.Ex.Args[1], isZx, z, depth+1)
+			if a >= 0 && b >= 0 {
+				return a - b
+			}
+		}
+	case "Select":
+		if len(v.Ex.Args) == 3 {
+			switch evalBoolExpr(v.Ex.Args[0], isZx, z, depth+1) {
+			case 1:
+				return evalBoolExpr(v.Ex.Args[1], isZx, z, depth+1)
+			case 0:
+				return evalBoolExpr(v.Ex.Args[2], isZx, z, depth+1)
+			}
+		}
+	}
+	return -1
+}
+
 func rulesC07(cx *Ctx) []Obligation {
 	var obs []Obligation
 	P := cx.P
@@ -685,6 +728,7 @@ func rulesC07(cx *Ctx) []Obligation {
 		key := "C07/O7.1/zero-branch"
 		desc := "inverse of zero reports 'no inverse' instead of failing: the product assertion is a Select conditioned on IsZero(x), and the returned flag depends on the same IsZero(x)"
 		found := false
+		polarity := ""
 		for _, rec := range r.Recs {
 			if rec.Kind != "eq" || !rec.Must || !helperChain(r.Entry, rec.Chain) || len(rec.Args) != 2 {
 				continue
@@ -692,14 +736,39 @@ func rulesC07(cx *Ctx) []Obligation {
 			for _, a := range rec.Args {
 				if a.Ex != nil && a.Ex.Op == "Select" && len(a.Ex.Args) == 3 && exprFind(a.Ex.Args[0], "IsZero", isZx, 0) {
 					flag := r.In.Narrow(r.Res.Ret, "#1")
-					if exprFind(flag, "IsZero", isZx, 0) {
+					if !exprFind(flag, "IsZero", isZx, 0) {
+						continue
+					}
+					// polarity: with x = 0 (IsZero = 1) the Select must yield the constant 1 and the flag 0; with x ≠ 0 the
+					// product and the flag 1 — exchanged arms assert nothing for every invertible x
+					armFor := func(z int64) *Val {
+						switch evalBoolExpr(a.Ex.Args[0], isZx, z, 0) {
+						case 1:
+							return a.Ex.Args[1]
+						case 0:
+							return a.Ex.Args[2]
+						}
+						return nil
+					}
+					isOne := func(v *Val) bool { k := constOf(v); return k != nil && k.Cmp(big.NewInt(1)) == 0 }
+					whenZero, whenNonZero := armFor(1), armFor(0)
+					switch {
+					case whenZero == nil || whenNonZero == nil:
+						polarity = "the condition of the Select is not IsZero(x) or 1 − IsZero(x)"
+					case !isOne(whenZero) || isOne(whenNonZero):
+						polarity = "the arms of the Select are exchanged: the product is compared only when x = 0, nothing is asserted for an invertible x"
+					case evalBoolExpr(flag, isZx, 1, 0) != 0 || evalBoolExpr(flag, isZx, 0, 0) != 1:
+						polarity = "the returned flag is not 1 − IsZero(x)"
+					default:
 						found = true
 						obs = append(obs, good(key, desc, r.site(rec)))
 					}
 				}
 			}
 		}
-		if !found {
+		if !found && polarity != "" {
+			obs = append(obs, bad(key, desc, polarity, P.FnName(r.Entry)))
+		} else if !found {
 			obs = append(obs, bad(key, desc, "the equality asserting inverse·x = 1 is not conditioned on IsZero(x) (x = 0 makes the circuit unsatisfiable) or the flag is not derived from it", P.FnName(r.Entry)))
 		}
 	}
